@@ -56,6 +56,10 @@ def _mk_corpus():
     add("corpus/scan1.h", {"scan1.h": s1}, "scan1.h", "scan1.h", ["-D__cplusplus"], ["pf", "pfe", "ig"])
     add("corpus/scan2.c", {"scan2.c": s2, "scan_inc.h": si}, "scan2.c", "scan2.c", [], ["pf", "pfe", "ig"])
     add("corpus/scan2.c:inc", {"scan2.c": s2, "scan_inc.h": si}, "scan2.c", "scan_inc.h", [], ["pf", "pfe", "ig"])
+    add("corpus/igate.h", {"igate.h": rd(os.path.join(cd, "igate.h"))}, "igate.h", "igate.h", ["-D__cplusplus"], ["pf", "ig"])
+    # a seeded overload-heavy header of the generator the other scenarios use
+    gen = common.big_header(20261002, 6).encode()
+    add("gen/big.h", {"big.h": gen}, "big.h", "big.h", ["-D__cplusplus"], ["pf", "ig"])
     nh, nn = rd(os.path.join(cd, "nfile.h")), rd(os.path.join(cd, "nfile.N"))
     add("corpus/nfile.N", {"nfile.h": nh, "nfile.N": nn}, "nfile.h", "nfile.N", ["-D__cplusplus"], ["ig"])
     pi = os.path.join(repo, "parser-inc")
